@@ -271,6 +271,9 @@ def run(ctx):
     cs += [{"kind": "history", "oils": [list(o) for o in OILS[:3]][::-1], "n": 3}]
     cs += [{"kind": "long", "fn": f, "oil": list(o), "dtype": d, "n": n}
            for f, o, d, n in itertools.product(list(functions().keys()), OILS[:3], ["f8", "f4", "i8"], [64, 1000])]
+    # thousands of cells are ordinary (nx, daily histories): one 5000-element (thorough: also 20 000) array per function
+    cs += [{"kind": "long", "fn": f, "oil": list(OILS[0]), "dtype": "f8", "n": n}
+           for f, n in itertools.product(list(functions().keys()), [5000] + ([20000] if ctx.tier == "thorough" else []))]
     res = ctx.pmap(dispatch, cs, chunksize=1)
     cov = {
         "evaluations": sum(r.get("evals", 0) for r in res),
@@ -282,7 +285,8 @@ def run(ctx):
     }
     return ctx.finish("exploration", cov, [
         f"element tolerance {ULPS} eps of the floating type involved (float32 inputs: float32 eps)",
-        "2-D arrays and scalar arguments to Fluid.water_FVF / gas_FVF are outside the stated quantifier",
+        "2 x 2 arrays (C, Fortran, transposed) are held to the same element law ('results have the input's shape'); scalar "
+        "arguments to Fluid.water_FVF / gas_FVF are outside the stated quantifier; array lengths up to 5000 (thorough 20 000)",
     ])
 
 
